@@ -204,6 +204,72 @@ pub fn shim_iter_nth<I: Iterator>(it: I, n: usize) -> (r: Option<I::Item>)
     let mut it = it;
     it.nth(n)
 }
+/// What `C::from_iter` builds from the sequence of items it is handed.  `FromIterator` is implemented by the caller's
+/// container; the only thing assumed about it is that the result is a function of the yielded sequence.
+pub uninterp spec fn from_iter_spec<C, X>(s: Seq<X>) -> C;
+/// N2 shim for `IT.collect()` into a caller-chosen container
+#[verifier::external_body]
+pub fn shim_iter_collect<I: Iterator, C: core::iter::FromIterator<I::Item>>(it: I) -> (r: C)
+    requires vstd::std_specs::iter::IteratorSpec::obeys_prophetic_iter_laws(&it),
+    ensures r == from_iter_spec::<C, I::Item>(vstd::std_specs::iter::IteratorSpec::remaining(&it)),
+{
+    it.collect()
+}
+/// N2 shim for `IT.map(F).collect()` into a caller-chosen container: F (which computes `g`) is applied to every item, in order
+#[verifier::external_body]
+pub fn shim_iter_map_collect<I: Iterator, B, F: FnMut(I::Item) -> B, C: core::iter::FromIterator<B>>(it: I, Ghost(g): Ghost<spec_fn(I::Item) -> B>, f: F) -> (r: C)
+    requires
+        vstd::std_specs::iter::IteratorSpec::obeys_prophetic_iter_laws(&it),
+        forall|i: int| 0 <= i < vstd::std_specs::iter::IteratorSpec::remaining(&it).len() ==> call_requires(f, (#[trigger] vstd::std_specs::iter::IteratorSpec::remaining(&it)[i],)),
+        forall|x: I::Item, o: B| #[trigger] call_ensures(f, (x,), o) ==> o == g(x),
+    ensures
+        r == from_iter_spec::<C, B>(vstd::std_specs::iter::IteratorSpec::remaining(&it).map_values(g)),
+{
+    it.map(f).collect()
+}
+/// N2 shim for `MAP.into_values().collect()` (owned BTreeMap; vstd has no spec for btree_map::IntoValues): the values in
+/// increasing key order
+#[verifier::external_body]
+pub fn shim_btreemap_into_values_collect<K: Ord, V, C: core::iter::FromIterator<V>>(m: BTreeMap<K, V>) -> (r: C)
+    ensures
+        vstd::std_specs::btree::key_obeys_cmp_spec::<K>() ==> exists|ks: Seq<K>| #[trigger] vstd::std_specs::btree::increasing_seq(ks) && ks.to_set() == m@.dom() && ks.no_duplicates()
+            && r == from_iter_spec::<C, V>(ks.map(|i: int, k: K| m@[k])),
+{
+    m.into_values().collect()
+}
+/// N2 shim for `SET.into_iter().map(F).collect()` (owned BTreeSet; vstd has no spec for btree_set::IntoIter): F (which
+/// computes `g`) applied to the elements in increasing order
+#[verifier::external_body]
+pub fn shim_btreeset_into_map_collect<T: Ord, B, F: FnMut(T) -> B, C: core::iter::FromIterator<B>>(s: BTreeSet<T>, Ghost(g): Ghost<spec_fn(T) -> B>, f: F) -> (r: C)
+    requires
+        forall|x: T| s@.contains(x) ==> call_requires(f, (x,)),
+        forall|x: T, o: B| #[trigger] call_ensures(f, (x,), o) ==> o == g(x),
+    ensures
+        vstd::std_specs::btree::key_obeys_cmp_spec::<T>() ==> exists|ks: Seq<T>| #[trigger] vstd::std_specs::btree::increasing_seq(ks) && ks.to_set() == s@ && ks.no_duplicates()
+            && r == from_iter_spec::<C, B>(ks.map_values(g)),
+{
+    s.into_iter().map(f).collect()
+}
+/// `find_map` ran F on a prefix of the `total` items: every result but the last is None; it stopped at the first Some, or ran out
+pub open spec fn find_map_run<B>(outs: Seq<Option<B>>, total: int, r: Option<B>) -> bool {
+    let n = outs.len() as int;
+    &&& n <= total
+    &&& forall|i: int| 0 <= i < n - 1 ==> (#[trigger] outs[i]) is None
+    &&& (r is Some ==> n > 0 && outs[n - 1] == r)
+    &&& (r is None ==> n == total && (n > 0 ==> outs[n - 1] is None))
+}
+/// N2 shim for `IT.enumerate().find_map(F)`: the first index whose item F maps to Some
+#[verifier::external_body]
+pub fn shim_iter_enumerate_find_map<I: Iterator, B, F: FnMut((usize, I::Item)) -> Option<B>>(it: I, f: F) -> (r: Option<B>)
+    requires
+        vstd::std_specs::iter::IteratorSpec::obeys_prophetic_iter_laws(&it),
+        forall|i: int| 0 <= i < vstd::std_specs::iter::IteratorSpec::remaining(&it).len() ==> call_requires(f, ((i as usize, #[trigger] vstd::std_specs::iter::IteratorSpec::remaining(&it)[i]),)),
+    ensures
+        exists|outs: Seq<Option<B>>| #[trigger] find_map_run(outs, vstd::std_specs::iter::IteratorSpec::remaining(&it).len() as int, r)
+            && (forall|i: int| 0 <= i < outs.len() ==> call_ensures(f, ((i as usize, vstd::std_specs::iter::IteratorSpec::remaining(&it)[i]),), #[trigger] outs[i])),
+{
+    it.enumerate().find_map(f)
+}
 /// N2 shim for `SET.range((Unbounded, Excluded(X.clone()))).rev().find(|id| id < &X)`: the greatest element below X
 #[verifier::external_body]
 pub fn shim_btreeset_pred<'a, T: Ord + Clone>(s: &'a BTreeSet<T>, x: &T) -> (r: Option<&'a T>)
